@@ -341,6 +341,11 @@ func (g *seqGen) Next(r *RNG, hist []Op) (Op, bool) {
 			if wReopen == 0 {
 				continue
 			}
+			if r.Bool(35) {
+				g.pending = append(g.pending, mkOp("view"), mkOp("disk"))
+				g.readBackAll()
+				return mkOp("paths"), true
+			}
 			g.pending = append(g.pending, mkOp("disk"))
 			switch r.Pick(50, 35, 15) {
 			case 1:
